@@ -67,6 +67,12 @@ func (x *c08World) Enabled() []bfs.Op {
 	{ // (these were thorough-only until round 20; the whole alphabet costs a few seconds at the quick depth)
 		ops = append(ops, bfs.Op{Name: "Lock!closed", Arg: "p"}, bfs.Op{Name: "Lock!closed+1", Arg: "p"}, bfs.Op{Name: "Unlock!closed+1", Arg: "p"}, bfs.Op{Name: "Unlock!refused+2", Arg: "p"}, bfs.Op{Name: "Sign", Arg: "c.cur"}, bfs.Op{Name: "Remove", Arg: "c.cur"},
 			bfs.Op{Name: "Lock", Arg: ""}, bfs.Op{Name: "Forward", Arg: "\x0b"})
+		// raw lock / unlock requests that the underlying agent REFUSES (a passphrase nobody uses; a lock while locked),
+		// relayed verbatim: a refused request changes no lock state, whichever path it took
+		ops = append(ops, bfs.Op{Name: "Forward", Arg: "\x17\x00\x00\x00\x02zz"})
+		if x.locked && x.w.ua.Ring.Locked {
+			ops = append(ops, bfs.Op{Name: "Forward", Arg: "\x16\x00\x00\x00\x02zz"})
+		}
 	}
 	return ops
 }
